@@ -413,7 +413,7 @@ int pv_main(int argc, char** argv, const char* prop, const pv_section* secs, int
     }
     pv_cur.section = "fini"; pv_cur.idx = 0; pv_cur.api = NULL;
     if (getenv("PV_PREMAIN") && pv.shard == 0) {
-        static const struct { const char* prop; unsigned what; } W[] = { { "C01", 2 }, { "C03", 1 }, { "C04", 4 }, { "C06", 4 }, { "C07", 1 | 2 }, { "C12", 8 }, { "C13", 15 } };
+        static const struct { const char* prop; unsigned what; } W[] = { { "C01", 2 }, { "C03", 1 }, { "C04", 4 }, { "C06", 4 }, { "C07", 1 | 2 }, { "C10", 4 }, { "C12", 8 }, { "C13", 15 } };
         pv_cur.section = "premain"; pv_cur.idx = 0;
         for (unsigned i = 0; i < sizeof W / sizeof *W; ++i) if (!strcmp(W[i].prop, prop)) pv_premain_judge(prop, W[i].what);
     }
